@@ -316,6 +316,10 @@ func genDataOp(t *rapid.T, dir string, labels []string, first bool) DataOp {
 		return DataOp{Kind: "num", Val: v, Text: txt}
 	case k == 5 && dir == "db":
 		s := rapid.StringMatching(`[a-zA-Z0-9 ,;#'.:!?+*/()=<>_-]{0,12}`).Draw(t, "str")
+		// one string in five holds text beyond ASCII: its bytes (as the source file holds them) are data like any other
+		if rapid.IntRange(0, 4).Draw(t, "nonascii") == 0 {
+			s += rapid.SampledFrom([]string{"\u00e9", "\u65e5\u672c", "\uff76\uff85", "\u20ac", "\U0001F600", "\u00ff", "caf\u00e9 au lait"}).Draw(t, "strx")
+		}
 		return DataOp{Kind: "str", Str: s, Text: `"` + s + `"`}
 	case k == 7 && len(labels) > 0:
 		l := labels[rapid.IntRange(0, len(labels)-1).Draw(t, "lref")]
@@ -329,7 +333,7 @@ func genDataOp(t *rapid.T, dir string, labels []string, first bool) DataOp {
 
 var propC05 = &Prop[DataCase]{
 	ID:   "C05",
-	Rule: "programs of data directives: DB/DW/DD with 1..64 operands mixing numbers (negative, boundary, out of range), constant expressions, strings and single characters (DB), earlier labels and $; RESB n and RESB addr-$; ALIGNB n; interleaved EQU, labels, GLOBAL/EXTERN and bracket directives, and up to two out-of-reach Jcc lines that force a second assembly round; ORG aligned and unaligned; oracle: reference model of the directives written from the property text (little-endian low bits, strings byte for byte, n zeros, minimal padding of the address), plus location counter = bytes emitted; non-trivial = accepted and a list of >= 2 operands, a string, an expression or padding; distinct by source text. The enumeration is the complete ALIGNB grid (7 units x 64 residues x 4 origins).",
+	Rule: "programs of data directives: DB/DW/DD with 1..64 operands mixing numbers (negative, boundary, out of range), constant expressions, strings (ASCII and UTF-8 text) and single characters (DB), earlier labels and $; RESB n and RESB addr-$; ALIGNB n; interleaved EQU, labels, GLOBAL/EXTERN and bracket directives, and up to two out-of-reach Jcc lines that force a second assembly round; ORG aligned and unaligned; oracle: reference model of the directives written from the property text (little-endian low bits, strings byte for byte, n zeros, minimal padding of the address), plus location counter = bytes emitted; non-trivial = accepted and a list of >= 2 operands, a string, an expression or padding; distinct by source text. The enumeration is the complete ALIGNB grid (7 units x 64 residues x 4 origins).",
 	Gen: func(t *rapid.T) DataCase {
 		c := DataCase{Org: rapid.SampledFrom([]int64{-1, 0, 0x100, 0x7c00, 0x7c01, 0xc203, 0xfffc, 0x10000, 0x280000}).Draw(t, "org"), Mode: rapid.SampledFrom([]int{0, 16, 32}).Draw(t, "mode")}
 		used := map[string]bool{}
